@@ -59,12 +59,14 @@ def htmlText (t : Str) : Option Str := htmlData t.length t
 backslash escapes (single-quote variant) -/
 def urlCell (pr : Char → Bool) (url : Str) : Str := (pageEscape url).flatMap (reprChar pr '\'')
 
-/-- the outcomes for which the framework itself creates the error object (404, 405, 500 for a
-crashing handler or hook, 400/413 through `errors_map`; 400 for an undecodable path arises
-whatever the outcome) -/
+/-- the outcomes for which the framework itself creates the error object with a fixed text (404,
+405, 500 for a crashing handler, hook or iterator, 400/413 through `errors_map`; 400 for an
+undecodable path arises whatever the outcome).  Not among them: `abort` (user text) and
+`unsupportedType`, whose body quotes the handler's type name as it is (`<class 'int'>`; not
+request text, but not escaped either). -/
 def Outcome.framework : Outcome → Bool
-  | .notFound | .notAllowed _ | .raises _ _ _ | .requestError _ _ _ => true
-  | .abort _ _ | .ok _ => false
+  | .notFound | .notAllowed _ | .raises _ _ _ | .requestError _ _ _ | .iterRaises _ _ _ => true
+  | .unsupportedType _ | .abort _ _ | .ok _ => false
 
 /-- status line and body text of every framework-generated error: a closed list, nothing in it
 comes from a request -/
@@ -72,7 +74,8 @@ def frameworkPages : List (Str × Str) :=
   [(statusLine 400, "Invalid path string. Expected UTF-8".toList),
    (statusLine 404, "Not Found".toList),
    (statusLine 405, "Method not allowed.".toList),
-   (statusLine 500, "Internal Server Error".toList)] ++
+   (statusLine 500, "Internal Server Error".toList),
+   (statusLine 500, "Unhandled exception".toList)] ++
   Gen.errorsMap.map fun (_, code, body) => (statusLine code, body)
 
 end Ombott.ErrorPage
